@@ -131,6 +131,17 @@ func runC07(r *mc.Run) {
 			add("levels/"+name, nil, func(e *world.EnclaveIdentity) { e.TcbLevels = lsCopy })
 		}
 	}
+	// other spellings of a status: only Intel's own spelling is that status
+	for _, st := range []string{"UpToDate", "OutOfDate", "Revoked", "SWHardeningNeeded"} {
+		for _, sp := range []string{strings.ToUpper(st), strings.ToLower(st), strings.ToLower(st[:1]) + st[1:], st + " ", " " + st, strings.Replace(st, "o", "O", 1)} {
+			if sp == st {
+				continue
+			}
+			sp := sp
+			add(fmt.Sprintf("status-spelling/%q", sp), nil, func(e *world.EnclaveIdentity) { e.TcbLevels = []world.Level{mkLevel(8, sp)} })
+			add(fmt.Sprintf("status-spelling/%q-then-UpToDate", sp), nil, func(e *world.EnclaveIdentity) { e.TcbLevels = []world.Level{mkLevel(8, sp), mkLevel(7, "UpToDate")} })
+		}
+	}
 	add("levels/empty-list", nil, func(e *world.EnclaveIdentity) { e.TcbLevels = []world.Level{} })
 	add("levels/null", nil, func(e *world.EnclaveIdentity) { e.TcbLevels = nil })
 	// level dates: the listed order decides, whatever the dates say (ascending = later listed is newer), and
